@@ -676,12 +676,52 @@ func (e *Engine) evalBinary(st *State, x *ast.BinaryExpr) []valOut {
 	var out []valOut
 	for _, l := range e.eval(st, x.X) {
 		for _, r := range e.eval(l.st, x.Y) {
+			if cv := e.foldInt(x, l.v, r.v); cv != nil {
+				out = append(out, valOut{r.st, cv})
+				continue
+			}
 			v := e.newVal(KArith, e.Info.TypeOf(x), x.Pos())
 			v.Src, v.Src2, v.Op = l.v, r.v, x.Op
 			out = append(out, valOut{r.st, v})
 		}
 	}
 	return out
+}
+
+// foldInt folds bit operations on two integer values known as constants on this path (flag sets kept in a local: of |= flag,
+// of&flag != 0). Arithmetic is left symbolic: the polynomial rules read it.
+func (e *Engine) foldInt(x *ast.BinaryExpr, a, b *Val) *Val {
+	switch x.Op {
+	case token.OR, token.AND, token.AND_NOT, token.XOR:
+	default:
+		return nil
+	}
+	t := e.Info.TypeOf(x)
+	bt, ok := t.Underlying().(*types.Basic)
+	if !ok || bt.Info()&types.IsInteger == 0 {
+		return nil
+	}
+	ca, cb := intConstOf(a), intConstOf(b)
+	if ca == nil || cb == nil {
+		return nil
+	}
+	return e.constVal(constant.BinaryOp(ca, x.Op, cb), t)
+}
+
+func intConstOf(v *Val) constant.Value {
+	if v == nil {
+		return nil
+	}
+	if v.Kind == KZero {
+		if bt, ok := v.Type.Underlying().(*types.Basic); ok && bt.Info()&types.IsInteger != 0 {
+			return constant.MakeInt64(0)
+		}
+		return nil
+	}
+	if v.Kind == KConst && v.Const != nil && v.Const.Kind() == constant.Int {
+		return v.Const
+	}
+	return nil
 }
 
 // ---------------------------------------------------------------------------------------------
